@@ -1,7 +1,8 @@
 # sourced by every tool script: offline Go environment
 export GOFLAGS=-mod=mod GOPROXY=off GOSUMDB=off GOTOOLCHAIN=local
 export CARGO_NET_OFFLINE=true PIP_NO_INDEX=1
-export VERIF_ROOT="${VERIF_ROOT:-/verif}"
+# the tree this script lives in (a `vp run` snapshot of /verif is self-contained: own .cache, own evidence)
+export VERIF_ROOT="${VERIF_ROOT:-$(cd "$(dirname "${BASH_SOURCE[0]}")/.." && pwd)}"
 export VERIF_CACHE="${VERIF_CACHE:-$VERIF_ROOT/.cache}"
 export VERIF_REPO="${VERIF_REPO:-/repo}"
 export GO126="${GO126:-go1.26.8}"
